@@ -1,5 +1,9 @@
 #!/bin/sh
-# run the thorough tier of the given checks one after the other (for `vp run`)
+# run the given tier (default thorough) of the given checks one after the other (for `vp run --with-repo`)
+# usage: thorough_all.sh [--tier quick|thorough] [--seed N] ids...
+TIER=thorough; SEED=0
+while [ $# -gt 0 ]; do case "$1" in --tier) TIER=$2; shift 2;; --seed) SEED=$2; shift 2;; *) break;; esac; done
+if [ -n "$VP_RUN_REPO" ]; then export VERIF_REPO=$VP_RUN_REPO PYTHONPATH=$VP_RUN_REPO; fi
 for id in "$@"; do
-  echo "=== $id"; ( time ./check $id --tier thorough ) 2>&1 | grep -v "^  what" | tail -12 | cut -c1-400
+  echo "=== $id tier=$TIER seed=$SEED"; ( time VERIF_SEED=$SEED ./check $id --tier $TIER ) 2>&1 | grep -v "^KNOWN-FINDING" | grep "^  what\|^VIOLATION\|^C[0-9][0-9] \|MACHIN\|MODEL-DRIFT\|STALE\|^real" | head -12 | cut -c1-300
 done
